@@ -92,6 +92,62 @@ def run(ck: Checker):
             if not (any(x[0] == 'pos' and x[2] == 'RemoteException' for x in facts) or any(x[0] == 'neg' and cfg.lat.is_sub('Exception', x[2]) for x in facts)):
                 bad = sorted(facts)
         ck.ob('C04-2', f, sn.ast, bad is None, f'a member result stored in the slot is a RemoteException or proven not an exception' if bad is None else f'a member\'s failure can be stored in the result slot as a bare exception (path knowing only {bad}): fail_fast does not trigger for it and it loses its traceback when the combined result crosses a process boundary')
+    # fail_fast: with fail_fast on, a member failure is never delivered inside a "successful" result:
+    # hypothesis {fail_fast is true, this member's output is a RemoteException} at the slot store; every
+    # feasible path to an emit must carry the EnsembleError wrapper
+    ck.rule('C04-6', 'ensemble fail_fast: under the hypothesis "fail_fast and this member failed", every feasible path from the slot store to an emit delivers a RemoteException(EnsembleError), never the plain result list (GUARD, hypothesis-driven)')
+    emits = []
+    for n in cfg.nodes:
+        a = header_expr(n)
+        if a is None:
+            continue
+        for c in calls_in(a):
+            r, me = method_of(c)
+            if me == 'put' and r is not None and sc.canon(r) == 'self._qout' and c.args:
+                t = tuple_item(cfg, n, c.args[0])
+                if t is not None:
+                    emits.append((n, t.elts[1]))
+    ff = None
+    for n in walk_shallow_func(f.node):
+        if isinstance(n, ast.Assign) and dotted(n.value) == 'self._fail_fast' and isinstance(n.targets[0], ast.Name):
+            ff = n.targets[0].id
+    ck.need(ff and emits and slots, f'{f.key}: fail_fast alias / emits not found')
+    sn = slots[0]
+    yv = sn.ast.value.id
+    hyp = frozenset({('true', ff), ('pos', yv, 'RemoteException'), ('notnone', yv)})
+    probs = []
+    for en, payload in emits:
+        if isinstance(payload, ast.Call) and (dotted(payload.func) or '').endswith('RemoteException'):
+            continue
+        # search (node, facts) from the slot store under the hypothesis
+        from collections import deque
+
+        start = [(e.dst, g._transfer_one(e, hyp)) for e in cfg.normal_succ(sn.id)]
+        seen = set()
+        dq = deque(x for x in start if x[1] is not None)
+        hit = None
+        getters = {k.id for k in cfg.nodes if isinstance(k.ast, ast.Assign) and isinstance(k.ast.value, ast.Call) and method_of(k.ast.value)[1] == 'get' and isinstance(method_of(k.ast.value)[0], ast.Name)}
+        while dq and len(seen) < 20000:
+            k = dq.popleft()
+            if k in seen:
+                continue
+            seen.add(k)
+            nid, d = k
+            if nid == en.id:
+                # payload must be a RemoteException here
+                if isinstance(payload, ast.Name) and any(x[0] == 'pos' and x[1] == payload.id and x[2] == 'RemoteException' for x in d):
+                    continue
+                hit = nid
+                break
+            if nid in getters or nid in (cfg.exit_return, cfg.exit_raise):
+                continue  # next message: the hypothesis is about this one
+            for e in cfg.succ[nid]:
+                nd = g._transfer_one(e, d)
+                if nd is not None:
+                    dq.append((e.dst, nd))
+        if hit is not None:
+            probs.append(f'with fail_fast on and this member failed, the emit at L{en.lineno} can deliver `{norm_text(payload)[:30]}` — a "successful" result that contains the member\'s RemoteException — instead of an EnsembleError')
+    ck.ob('C04-6', f, sn.ast, not probs, '; '.join(probs) if probs else f'under fail_fast a failed member always leads to RemoteException(EnsembleError) at every reachable emit ({len(emits)} emit sites examined)')
     # short circuit sinks
     for f, kind in ((smod.func('EnsembleServlet._enqueue'), 'member'), (smod.func('SwitchServlet._enqueue'), 'member')):
         cfg, sc, g = guard_cfg(ck, f, calls=())
